@@ -636,6 +636,8 @@ OPS_SCOPES = {
                                                   'circuits/src/field/foreign/field_chip.rs', 'zk_stdlib/src/lib.rs')),
     'C12': (['curves', 'proofs'], ('curves/src/msm.rs', 'curves/src/fft.rs', 'proofs/src/poly/domain.rs', 'proofs/src/poly/mod.rs', 'proofs/src/utils/arithmetic.rs',
                                    'proofs/src/utils/rational.rs', 'proofs/src/poly/kzg/msm.rs', 'proofs/src/poly/kzg/params.rs')),
+    'C13': (['curves', 'proofs'], ('curves/src/bls12_381/bls_pairing.rs', 'curves/src/bls12_381/gt.rs', 'curves/src/bls12_381/fp12.rs', 'curves/src/bls12_381/mod.rs',
+                                   'curves/src/bls12_381/g2.rs', 'proofs/src/poly/kzg/msm.rs')),
     'C14': (['proofs', 'circuits'], ('proofs/src/poly/', 'proofs/src/utils/arithmetic.rs', 'circuits/src/verifier/kzg.rs')),
     'C15': (['proofs', 'circuits', 'zk_stdlib'], ('proofs/src/poly/commitment.rs', 'proofs/src/poly/kzg/', 'circuits/src/verifier/accumulator.rs', 'circuits/src/verifier/msm.rs',
                                                    'zk_stdlib/src/lib.rs')),
@@ -737,8 +739,11 @@ def write_ops_tables(worlds):
             out_o[cfg + ':absent'] = {p: sorted(fn for fn in base_o.get(p, {}) if fn not in o.get(p, {})) for p in o}
             out_r[cfg] = {p: {fn: v for fn, v in d.items() if base_r.get(p, {}).get(fn) != v} for p, d in r.items()}
             out_r[cfg + ':absent'] = {p: sorted(fn for fn in base_r.get(p, {}) if fn not in r.get(p, {})) for p in r}
-    json.dump(out_o, open(os.path.join(facts.VERIF, 'rules', 'ops.json'), 'w'))
-    json.dump(out_r, open(os.path.join(facts.VERIF, 'rules', 'restrict.json'), 'w'))
+    for name, data in (('ops.json', out_o), ('restrict.json', out_r)):
+        path = os.path.join(facts.VERIF, 'rules', name)
+        with open(path + '.tmp', 'w') as fh:
+            json.dump(data, fh)
+        os.replace(path + '.tmp', path)          # atomic: a check that runs meanwhile reads the old or the new table, never half of one
     return sum(len(d) for d in out_o['default'].values()), sum(len(d) for d in out_r['default'].values())
 
 
